@@ -109,7 +109,9 @@ CFG = {
                   "read-only calls and settled executions (C09_settled_partial). Every run: the sequential semantics the theorem refers to is the API model, "
                   "compared with the real package on generated histories (order-independence oracle); tools/racer runs thousands of multi-goroutine "
                   "scenarios (shared helpers in text/attribute/URL/script/RCDATA positions, failing members, first executions racing with read-only "
-                  "calls, GOMAXPROCS 1–16) under the race detector and compares every call's result with sequential reference runs.",
+                  "calls, GOMAXPROCS 1–16; data also through pointers to named types; on every other repetition the handles are resolved by Lookup before the "
+                  "goroutines start, so that no accidental mutex synchronisation hides a missing one) under the race detector and compares every call's "
+                  "result with sequential reference runs.",
     "level_note": "Closed for the API model: Proofs/ConcApi.lean splits apiExecute / apiExecuteTemplate into critical section + unlocked textExecute "
                   "(apiExecute_split, step_eq_runCall, serial_is_api_step: one serial step of Model/Conc IS one Api.step, the function compared with the real package), "
                   "proves Conc.Stable for these calls and Lookup/Templates (api_stable, from the escaper-state invariant of Proofs/Frozen.lean) and concludes "
